@@ -22,7 +22,7 @@ TECHNIQUE = "exhaustive enumeration of all checkpoint subsets (<= 2^7) x scripte
 LEVEL_TEXT = ("All subsets of a candidate checkpoint set placed adversarially relative to the step ends are solved for every enumerated history and configuration; "
               "means, covariances, step counts and output scales are compared with an exact reference interpolation and with the full-set solve.")
 LEVEL_NOTE = "Trusted: mpmath reference; histories scripted on a dyadic lattice (natural, tolerance-driven histories in a smaller separate part). clip_dt=False as the statement requires."
-TIMEOUT_S = {"quick": 1500, "thorough": 10800}
+TIMEOUT_S = {"quick": 1800, "thorough": 21600}
 EPS = 2.0 ** -20
 
 
